@@ -318,6 +318,20 @@ func mutateRule(r *rand.Rand, rule *Rule) (*Rule, string, []probeTarget) {
 
 // craftedPair: rules whose argument lists imitate snapshot syntax (D5 family).
 func craftedPair(r *rand.Rand) (*Rule, *Rule, string) {
+	if r.Intn(3) == 0 {
+		// two rules that differ only in WHICH member of the same method result they read
+		k := int64(r.Intn(5))
+		arg := []string{"F.A", "F.B", "F.Idx"}[r.Intn(3)]
+		mkm := func(name, member string, gk reflect.Kind) *Rule {
+			me := func() *Expr {
+				return &Expr{Op: "member", Ty: TInt, GK: int(gk), Fn: member,
+					L: CallE(tool(), "Ptr", TAny, reflect.Ptr, LitI(0), VarE(P(arg), TInt, reflect.Int64))}
+			}
+			return &Rule{Name: name, Desc: "crafted", When: Bin(">=", TBool, me(), LitI(k)),
+				Then: []*Stmt{Assign(P("F.C"), "=", me()), {Kind: "retract", Name: name}}}
+		}
+		return mkm("A", "X", reflect.Int64), mkm("B", "N", reflect.Int32), "member of a method result"
+	}
 	a, b := []string{"a", "x1", "", "q"}[r.Intn(4)], []string{"b", "y", "zz"}[r.Intn(3)]
 	glue := []string{`")))),E(EA(A(C(string->"`, `","`, `"),E(EA(A(C(string->"`, `\"),E(EA(A(C(string->\"`, `", "`, "\"),C(string->\"", `\",\"`}[r.Intn(7)]
 	mk := func(name string, args ...*Expr) *Rule {
